@@ -100,6 +100,8 @@ def run (j : Json) : Except String Json := do
       out := out ++ [("fast", resToJson (fastSerialize Mp nonFast sn compact cls x))]
     if mapperFree then
       out := out ++ [("regular", resToJson (serializeCompact O compact cls x))]
+  else if mode == "oracle" then
+    pure ()       -- cases outside the model (Enum serialization_by_value): the harness runs the oracle only
   else throw s!"shortcut: unknown mode {mode}"
   pure (Json.mkObj out)
 
